@@ -673,11 +673,38 @@ func (w *World) guardLeaves(p *packages.Package, fd ast.Node, e ast.Expr, out le
 
 // limit1Exceptions: sites bounded by construction; keyed function + leaf.
 var limit1Exceptions = map[string]string{
-	"builtinTypeName|call:TypeName":               "TypeName() results are short constant names",
-	"MapIterator.Key|elem-of:i.k":                 "an existing map key (already a script string)",
-	"BuiltinModule.AsImmutableMap|var:moduleName": "module name supplied by the embedder / import expression, not produced by an operator or builtin",
-	"FromInterface|call:Error":                    "host boundary: error text supplied by the embedding program",
-	"builtinFormat|call:Format":                   "Format enforces MaxStringLen on its own output buffer (LIMIT.2)",
+	"builtinTypeName|call:TypeName":           "TypeName() results are short constant names",
+	"MapIterator.Key|elem-of:recv.k":          "an existing map key (already a script string)",
+	"BuiltinModule.AsImmutableMap|var:param0": "module name supplied by the embedder / import expression, not produced by an operator or builtin",
+	"FromInterface|call:Error":                "host boundary: error text supplied by the embedding program",
+	"builtinFormat|call:Format":               "Format enforces MaxStringLen on its own output buffer (LIMIT.2)",
+}
+
+// roleLeaf rewrites the variable a leaf starts with into its role (receiver,
+// n-th parameter), so that the exception table does not depend on names.
+func roleLeaf(fd *ast.FuncDecl, k string) string {
+	i := strings.Index(k, ":")
+	if i < 0 {
+		return k
+	}
+	kind, rest := k[:i+1], k[i+1:]
+	head, tail := rest, ""
+	if j := strings.IndexAny(rest, ".[("); j >= 0 {
+		head, tail = rest[:j], rest[j:]
+	}
+	if fd.Recv != nil && len(fd.Recv.List) == 1 && len(fd.Recv.List[0].Names) == 1 && fd.Recv.List[0].Names[0].Name == head {
+		return kind + "recv" + tail
+	}
+	n := 0
+	for _, f := range fd.Type.Params.List {
+		for _, nm := range f.Names {
+			if nm.Name == head {
+				return fmt.Sprintf("%sparam%d%s", kind, n, tail)
+			}
+			n++
+		}
+	}
+	return k
 }
 
 func ruleLIMIT1(c *Ctx) {
@@ -733,7 +760,7 @@ func ruleLIMIT1(c *Ctx) {
 			allTabled := true
 			var reasons []string
 			for k := range leaves {
-				if why, ok := limit1Exceptions[funcName(fd)+"|"+k]; ok {
+				if why, ok := limit1Exceptions[funcName(fd)+"|"+roleLeaf(fd, k)]; ok {
 					reasons = append(reasons, why)
 				} else {
 					allTabled = false
@@ -768,7 +795,7 @@ func ruleLIMIT1(c *Ctx) {
 			var missing []string
 			for k := range leaves {
 				if !covered[k] {
-					if _, ok := limit1Exceptions[funcName(fd)+"|"+k]; !ok {
+					if _, ok := limit1Exceptions[funcName(fd)+"|"+roleLeaf(fd, k)]; !ok {
 						missing = append(missing, k)
 					}
 				}
